@@ -5,7 +5,10 @@ import (
 	"fmt"
 	"hash/fnv"
 	"net/url"
+	"os"
+	"os/exec"
 	"runtime"
+	"strconv"
 	"strings"
 	"sync"
 	"sync/atomic"
@@ -467,7 +470,6 @@ func c04kindSx(b c04Branch) SX {
 
 func c04emit(c *Ctx, cs *c04Case, caseNo int) {
 	ref := c04reference(cs)
-	obs := c04run(cs, caseNo)
 	nb := len(cs.br)
 	// input
 	cfg := make([]SX, nb)
@@ -523,6 +525,12 @@ func c04emit(c *Ctx, cs *c04Case, caseNo int) {
 		}
 	}
 	threads = append(threads, tickThreads...)
+	// a crash of the process (e.g. a panic in BufferedWriteSyncer's own flushLoop goroutine)
+	// cannot be recovered here: leave the case on disk for the parent process
+	if cur := os.Getenv("C04_CUR"); cur != "" {
+		_ = os.WriteFile(cur, []byte(fmt.Sprintf("%d\t%s\t%s", caseNo, cs.class, Render(L(L(cfg...), L(threads...), L())))), 0o644)
+	}
+	obs := c04run(cs, caseNo)
 	// observation + hints
 	hints := make([]SX, nb)
 	ob := make([]SX, nb)
@@ -577,6 +585,7 @@ func c04emit(c *Ctx, cs *c04Case, caseNo int) {
 	}
 	c.Emit(input, L(ob...), map[string]string{"nt": nt, "class": cs.class, "g": fmt.Sprint(len(cs.th)),
 		"lines": fmt.Sprint(totalLines), "maxline": fmt.Sprint(maxLine), "bigger": big, "syncs": fmt.Sprint(syncOps), "ticks": fmt.Sprint(cs.ticks)})
+	c.out.Flush()
 }
 
 func c04isAccepted(o c04Op) bool { return o.kind == 0 && o.lvl >= zapcore.InfoLevel }
@@ -657,23 +666,108 @@ func c04className(br []c04Branch) string {
 	for i, b := range br {
 		parts[i] = names[b.kind]
 	}
-	s := strings.Join(parts, "+")
 	if len(br) > 1 {
-		s = "tee:" + s
+		hasBuf := ""
+		for _, b := range br {
+			if b.kind == c04Buf || b.kind == c04LockBuf {
+				hasBuf = "-buffered"
+			}
+		}
+		return fmt.Sprintf("tee%d%s", len(br), hasBuf)
 	}
-	return s
+	return strings.Join(parts, "+")
 }
 
+// The cases are run in a child process (same binary, C04_CHILD=1): a panic in a goroutine
+// zap itself started (BufferedWriteSyncer.flushLoop) kills the process; the parent then
+// reports the case that was running as a violation and resumes after it.  Side-channel
+// lines are written after the last case line (the driver prints a verdict for every line).
 func c04(c *Ctx) {
+	if os.Getenv("C04_CHILD") != "" {
+		c04child(c)
+		return
+	}
+	dir, err := os.MkdirTemp("", "c04")
+	if err != nil {
+		panic(err)
+	}
+	defer os.RemoveAll(dir)
+	tier := "quick"
+	if c.Thorough {
+		tier = "thorough"
+	}
+	var side []string
+	from, crashes := 0, 0
+	for {
+		outf, curf := dir+"/out", dir+"/cur"
+		os.Remove(curf)
+		cmd := exec.Command(os.Args[0], "C04", "-seed", strconv.FormatUint(c.Seed, 10), "-tier", tier, "-out", outf)
+		cmd.Env = append(os.Environ(), "C04_CHILD=1", "C04_FROM="+strconv.Itoa(from), "C04_CUR="+curf)
+		var stderr bytes.Buffer
+		cmd.Stderr = &stderr
+		runErr := cmd.Run()
+		data, _ := os.ReadFile(outf)
+		for _, ln := range strings.Split(string(data), "\n") {
+			if ln == "" {
+				continue
+			}
+			if strings.HasPrefix(ln, "!") {
+				side = append(side, ln)
+				continue
+			}
+			if strings.Count(ln, "\t") != 2 {
+				continue // a line cut short by the crash
+			}
+			c.out.WriteString(ln)
+			c.out.WriteByte('\n')
+			c.Cases++
+		}
+		if runErr == nil {
+			break
+		}
+		crashes++
+		cur, _ := os.ReadFile(curf)
+		parts := strings.SplitN(string(cur), "\t", 3)
+		msg := strings.TrimSpace(stderr.String())
+		if i := strings.Index(msg, "\n\n"); i > 0 {
+			msg = msg[:i]
+		}
+		msg = strings.Join(strings.Fields(msg), " ")
+		if len(msg) > 300 {
+			msg = msg[:300]
+		}
+		if len(parts) == 3 {
+			idx, _ := strconv.Atoi(parts[0])
+			side = append(side, fmt.Sprintf("!VIOL\tthe process running the real zap crashed during this case: %s [%s]\t%s", msg, parts[1], parts[2]))
+			from = idx + 1
+		} else {
+			side = append(side, fmt.Sprintf("!VIOL\tthe process running the real zap crashed before any case: %s\t()", msg))
+			break
+		}
+		if crashes >= 5 {
+			side = append(side, "!INFO\tstopped=after 5 crashes")
+			break
+		}
+	}
+	for _, ln := range side {
+		c.out.WriteString(ln)
+		c.out.WriteByte('\n')
+	}
+}
+
+func c04child(c *Ctx) {
 	if runtime.GOMAXPROCS(0) < 4 {
 		runtime.GOMAXPROCS(4)
 	}
+	from, _ := strconv.Atoi(os.Getenv("C04_FROM"))
 	r := NewRNG(c.Seed)
 	caseNo := 0
 	emit := func(cs *c04Case) {
 		cs.seed = r.Next()
 		cs.class = c04className(cs.br)
-		c04emit(c, cs, caseNo)
+		if caseNo >= from {
+			c04emit(c, cs, caseNo)
+		}
 		caseNo++
 	}
 	// 1. directed grid: every sink kind x goroutine count x size class x with/without Sync+ticks
